@@ -20,8 +20,13 @@ yen = KaniUnit("c13_yen", CORE,
                modules=[dict(file=CORE + "/src/algorithm/search/search_instance.rs", src="world.rs"), dict(file=YEN, src="c13_yen.rs")],
                harnesses=[H("c13_yen_spur_range_no_underflow", "complete", "yens_algorithm::run: `0..prev_accepted_path.len() - 2` does not underflow for any stored route (len >= 1)", timeout=120)])
 yen.native_witnesses = ['c13_wit_yen_one_edge_route']
-UNITS = [sim, term, yen]
-EXPLANATION = ("the k-shortest-path drivers themselves are outside both back ends (itertools pipelines, repeated calls of the search driver); "
-               "decided here: the similarity decision and the stop criterion (complete over their domains) and expression-level call-site obligations in the drivers")
-NOT_DECIDED = ("validity, distinctness, count and termination of the drivers' output on any graph; route_contains_loop, cos_similarity, "
-               "reorient_reverse_route (itertools; CBMC cannot carry HashMap/HashSet keys) are not under contract")
+sv = VerusUnit("c13_single_via", "c13_single_via", rlimit=60)
+UNITS = [sv, sim, term, yen]
+EXPLANATION = ("single-via driver UNDER CONTRACT (unit c13_single_via, Verus, verbatim `run`, any graph / k / criteria / similarity function): at most k routes; with k >= 1 at least one and the first is the "
+               "forward tree's own route to the target; every alternative is loop-free (route_contains_loop == two edges share a source vertex, verified) and is the forward tree's route to a via vertex followed by the "
+               "reverse tree's route re-traversed in travel direction (reorient_reverse_route: edge order reversed, each edge traversed after its true predecessor from the state that predecessor left, verified); "
+               "no two routes have the same edge sequence (test_id_similarity verified) and no later route is too similar to an earlier one under the configured function; with well-formed trees (TW of unit al_astar) "
+               "every alternative is a contiguous source-to-target walk (lemma); the driver's loops TERMINATE (decreases: queue size), given that its callees do. "
+               "Kernels by Kani: the similarity decision and the stop criterion complete over their domains; Yen: expression-level call-site obligation (known finding)")
+NOT_DECIDED = ("that the first route is least-cost (C02 is not optimality); cos_similarity / rank_similarity (HashMap + boxed closures: the verdict is an uninterpreted deterministic function here); "
+               "SearchAlgorithm::run_vertex_oriented (assumed to hand through run_a_star's trees); Yen's driver beyond the call-site obligation and the witness; termination of the underlying searches")
